@@ -1,5 +1,6 @@
-From C06 Require Import Model.
+From C06 Require Import Model Model2.
 Require Extraction.
 Require Import ExtrOcamlBasic.
 Extraction "model.ml" calcline lines decode_escape esc_defined_b depth too_deep threshold
-  ctx_local ctx_return level_cost inner_cost MAXRECLEVEL LPEG_MAXSTACK Z.to_N.
+  ctx_local ctx_return level_cost inner_cost MAXRECLEVEL LPEG_MAXSTACK Z.to_N
+  cap_threshold bt_threshold family_outcome format_diag parse_work capture_stack_worst ccall_stack_worst CSTACK_BUDGET.
